@@ -70,7 +70,7 @@ def quiet_identify(path):
 def make_synthetic(path, subset, placement, junk, trailing):
     buf = io.BytesIO()
     with zipfile.ZipFile(buf, "w") as z:
-        prefix = "archive/" if placement == "dir" else ""
+        prefix = {"dir": "archive/", "dotdir": ".ckpt/", "macdir": "__MACOSX_model/"}.get(placement, "")
         for m in MARKERS:
             if m in subset:
                 if m == "version":
@@ -194,6 +194,36 @@ def check_rewrite(scratch, present, swapped):
         return (f"after the file was rewritten in place (same length: {same_meta}, same timestamps) without "
                 f"{swapped}: {m}; before the rewrite it was identified as {f_a}")
     return None
+
+
+def check_pollution(scratch, present):
+    """identifying one file must not change what is said about another: a plain torch zip is
+    identified, then a model-archive-like zip with the same marker members (plus Python code, JSON
+    and weight files), then the plain one again.  None or message."""
+    plain = os.path.join(scratch.path, "plain.bin")
+    rich = os.path.join(scratch.path, "rich.bin")
+    for path, extras in ((plain, ()), (rich, ("handler.py", "config.json", "weights.pt", "MAR-INF/MANIFEST.json"))):
+        with zipfile.ZipFile(path, "w") as z:
+            for nm in present:
+                z.writestr("archive/" + nm, pickle.dumps([nm]) if nm.endswith(".pkl") else b"2\n")
+            for nm in extras:
+                z.writestr(nm, b"{}" if nm.endswith(".json") else b"x = 1\n")
+    try:
+        r0 = quiet_identify(plain)
+        quiet_identify(rich)
+        r1 = quiet_identify(plain)
+    except Exception as e:  # noqa: BLE001
+        return f"identification raised {type(e).__name__}: {e}"
+    finally:
+        for p in (plain, rich):
+            if os.path.exists(p):
+                os.remove(p)
+    if r0 != r1:
+        return (f"a zip with members {sorted(present)} was identified as {r0}; after another file (same marker "
+                f"members plus Python code / JSON / weights) had been identified, the same bytes are {r1}")
+    if "PyTorch model archive format" in r1:
+        return f"a zip holding only {sorted(present)} (no Python code files) is reported as a model archive: {r1}"
+    return table_check(sorted(present), r1)
 
 
 def torch_accepts(path):
@@ -428,7 +458,7 @@ def replay(case):
             m = check_identification(p, case["subset"], case["junk"])
             return Failure(case, f"synthetic zip {case}: {m}") if m else None
         if case["op"] == "real":
-            p = os.path.join(scratch.path, "real.bin")
+            p = os.path.join(scratch.path, ("real.bin", ".hidden.ckpt.pt", "__MACOSX.pt", "real.bin")[case.get("variant", 0) % 4])
             make_real(case["kind"], p, case.get("variant", 0))
             m = check_identification(p)
             if m is None and torch_accepts(p) and "PyTorch v1.3" not in quiet_identify(p):
@@ -438,6 +468,9 @@ def replay(case):
                 m = (f"a {DOCUMENTED_WHAT[case['kind']]} is the documented shape of {want!r} but is identified as "
                      f"{quiet_identify(p)}")  # fmt: skip
             return Failure(case, f"real file {case}: {m}") if m else None
+        if case["op"] == "pollution":
+            m = check_pollution(scratch, case["present"])
+            return Failure(case, f"cross-file {case}: {m}") if m else None
         if case["op"] == "rewrite":
             m = check_rewrite(scratch, case["present"], case["swapped"])
             return Failure(case, f"rewrite in place {case}: {m}") if m else None
@@ -448,7 +481,7 @@ def replay(case):
 def shards(tier):
     out = [{"kind": "synthetic", "part": i, "nparts": 6} for i in range(6)]
     out += [{"kind": "real", "part": i, "nparts": 2} for i in range(2)]
-    out += [{"kind": "rewrite"}]
+    out += [{"kind": "pollution"}, {"kind": "rewrite"}]
     out += [{"kind": "pairs", "part": i, "nparts": 6} for i in range(6)]
     out += [{"kind": "variations", "n": 60 if tier == "quick" else 10000, "idx": i} for i in range(2)]
     out += [{"kind": "faults", "part": i, "nparts": 4} for i in range(4)]
@@ -464,7 +497,7 @@ def run_shard(spec, seed):
         if spec["kind"] == "synthetic":
             cells = list(itertools.product(
                 [c for r in range(6) for c in itertools.combinations(MARKERS, r)],
-                ("root", "dir"), (False, True), ("none", "pickles", "tar"),
+                ("root", "dir", "dotdir", "macdir"), (False, True), ("none", "pickles", "tar"),
             ))  # fmt: skip
             n = 0
             for i, (subset, placement, junk, trailing) in enumerate(cells):
@@ -485,6 +518,16 @@ def run_shard(spec, seed):
                     break
             res.exhaustive = True
             res.extra["synthetic_files"] = n
+        elif spec["kind"] == "pollution":
+            for k in range(1, len(MARKERS) + 1):
+                for present in itertools.combinations(MARKERS, k):
+                    m = check_pollution(scratch, list(present))
+                    case = {"op": "pollution", "present": list(present)}
+                    res.note(None, True, klass="cross-file", sample=case)
+                    if m:
+                        res.failures.append(Failure(case, f"cross-file {case}: {m}"))
+                        return res
+            res.exhaustive = True
         elif spec["kind"] == "rewrite":
             for k in range(1, len(MARKERS) + 1):
                 for present in itertools.combinations(MARKERS, k):
@@ -500,7 +543,8 @@ def run_shard(spec, seed):
             for i, (kind, variant) in enumerate(itertools.product(REAL_KINDS, range(4))):
                 if i % spec["nparts"] != spec["part"]:
                     continue
-                p = os.path.join(scratch.path, "real.bin")
+                # torch names the archive's folder after the file: a dot-file gives a dot-folder
+                p = os.path.join(scratch.path, ("real.bin", ".hidden.ckpt.pt", "__MACOSX.pt", "real.bin")[variant % 4])
                 make_real(kind, p, variant)
                 m = check_identification(p)
                 acc = torch_accepts(p)
